@@ -1,7 +1,7 @@
 //! C03 swap cases: two buffers of the same curated type, `mem::swap` of two same-typed pointer objects
 //! taken from them through safe public API, and the expectation that the framework panics no later than
 //! the end of each affected exclusive borrow. See notes/unsized_ops_c03.md §2.
-use crate::access::Access;
+use crate::access::{Access, Backing};
 use crate::model::{self, Kind, MOut};
 use crate::node::{class_of, Holder, Level, Node, Out};
 use crate::ops::{parse_op, Op};
@@ -177,7 +177,7 @@ fn pre_swap_line<T: Node + ?Sized>(b: &mut Buf, shape: &Shape, rest: &str, fails
             }
         }
         (Plan::Apply(r), Out::Err(_)) => {
-            if r.known.is_some() && !b.access.limit_now.get() {
+            if r.known.is_some() && !b.access.limit_now() {
                 b.dead = true;
             } else if r.kind != Kind::Atomic {
                 // composite op failed part-way: follow the implementation's value
